@@ -37,6 +37,9 @@ CHECKS = {
   "C04": dict(level="model_checking", design="3.1, 4 (C04)",
       text="MxAuth (credential class x callback mode x proof-of-possession class -> the three verification steps Certificate / signed message / Finished, one rule for all versions) is model-checked for AuthBeforeComplete, NoCallbackMeansFatal and NeverToldNoFailure. Every scenario (5 versions incl. DTLS x RSA transport / ECDHE-RSA / ECDHE-ECDSA / static ECDH / TLS 1.3 signature schemes x client and server verifier x no / strict / permissive callback x 14 single-defect chains built with OpenSSL x {bad signature, rewritten SignatureScheme, signature lifted from another handshake, parameters changed after signing, wrong private key}) is executed as a real handshake against a deviant prover and its trace validated step by step against MxAuth_Trace: a message is accepted, the callback is told an alert, the handshake completes only as the model allows.",
       technique="TLA+ spec MxAuth checked by TLC + trace validation of real handshakes with defective credentials / proofs (MxAuth_Trace, MxSession_Trace)"),
+  "C14": dict(level="model_checking", design="3.5, 4 (C14)",
+      text="MxResume transcribes the server's bounded session cache (register / resume / update / clear with in-use counts and the replacement list) and stateless tickets, and is model-checked under every history of full handshakes, resumptions with the same or changed parameters, handle edits (truncated / altered id, secret, ticket, foreign key), handle theft, clock ticks, fatal alerts, closes, drops and ticket key rotation for 2 clients; ResumeSound (a completed resumption is justified by an issued, unexpired, not invalidated session state with the same secret and parameters, presented exactly as issued, sealed by a key still held) is an invariant. Random and directed histories of the same operations (plus cache overflow with 31-40 filler sessions and TLS 1.3 PSK resumption) are run on the real library and every completed resumed handshake of a server is judged by MxResume_Trace with the same predicate over fingerprints of secrets, ids, tickets and PSKs.",
+      technique="TLA+ spec MxResume checked by TLC + trace validation of resumption histories on the real library (MxResume_Trace, MxSession_Trace)"),
   "C05": dict(level="model_checking", design="3.6, 4 (C05)",
       text="MxName states the matching rule (exact case-insensitive match per kind, '*' for exactly one left-most label, CN only without supported SAN); TLC tabulates it over a universe of patterns x expected names and checks order independence, CN-only-without-SAN and one-label wildcards as invariants. Real leaf certificates with generated SAN lists (0-3 entries from a pool with wildcards in every position, partial wildcards, case variants, trailing dots, control characters, trailing/double/embedded NULs, e-mail, IP, URI entries; every order of sampled pairs/triples) x CN choices are run through matrixValidateCertsExt for each expected name of a grammar, and every verdict is validated by TLC against Match (soundness; completeness on names without trailing dot).",
       technique="TLA+ spec MxName checked by TLC + validation of the library's verdicts on generated certificates (MxName_Trace)"),
@@ -49,7 +52,9 @@ NAME_NOTE = ("Trusted base: TLC; OpenSSL (harness/certgen.c) writes the raw Gene
              "CStringSan (a SAN entry with one terminating zero byte is read as the C string before it) is a named, deliberate behaviour of the library and modelled as such; e-mail local parts: soundness uses the case-insensitive reading, completeness the verbatim one.")
 AUTH_NOTE = ("Trusted base: TLC; OpenSSL (harness/certgen.c) builds each defective chain; the generator's scenario record is the ground truth. The deviant prover is a MatrixSSL session whose presented chain is swapped after key loading and whose own handshake messages are rewritten by the driver before sealing (for TLS <= 1.2 before they enter its transcript). "
              "Not covered: revocation (CRL/OCSP), certificates refused by the parser (C03), renegotiation. Quick tier: three modes in full, the others sampled; thorough: all 11 modes in full.")
-NOTES = {"C04": AUTH_NOTE, "C05": NAME_NOTE, "C01": SESSION_NOTE, "C06": SESSION_NOTE, "C15": SESSION_NOTE, "C02": CHAN_NOTE, "C17": CHAN_NOTE, "C03": PKI_NOTE}
+RES_NOTE = ("Trusted base: TLC; fingerprints (32-bit FNV) of master secret, session id, ticket, PSK id/key logged by the driver; the driver's virtual clock (gettimeofday, time, clock_gettime wrapped). One-directional: refusing to resume is never an alarm. "
+            "Model bounds: 2 clients, table of 1 (quick) or 2 (thorough) entries, 3-4 session states, lifetime 1 tick, 1 edit/theft, one parameter dimension per config. Not modelled: multi-process servers sharing ticket keys, TLS 1.3 external PSKs.")
+NOTES = {"C14": RES_NOTE, "C04": AUTH_NOTE, "C05": NAME_NOTE, "C01": SESSION_NOTE, "C06": SESSION_NOTE, "C15": SESSION_NOTE, "C02": CHAN_NOTE, "C17": CHAN_NOTE, "C03": PKI_NOTE}
 
 def main():
     hooks_commits = subprocess.run(["git", "-C", "/repo", "log", "--format=%h %s", "--grep=^verif:"], capture_output=True, text=True).stdout.strip().splitlines()
